@@ -383,7 +383,7 @@ def run(ctx):
     for i in range(nc):
         files = base_files(rng, 5)
         txt = files["format"].decode()
-        kind = rng.choice(["clean", "syntax", "dangling", "alias", "both"])
+        kind = rng.choice(["clean", "syntax", "dangling", "alias", "both", "hidden", "hidden"])
         if kind in ("syntax", "both"):
             lines = txt.split("\n")
             for _ in range(rng.randint(1, 3)):
@@ -393,6 +393,12 @@ def run(ctx):
             txt += "d1 PHASE missing 1\nd2 LINCOM 1 nothere 1 0\nd3 MULTIPLY r8 gone\n"
         if kind == "alias":
             txt += "/ALIAS da gone\n/ALIAS r8/dm gone2\n"
+        if kind == "hidden":
+            # problems that only a listing with GD_ENTRIES_HIDDEN reaches, at top level and under a parent
+            parts = ["/META r8 hm PHASE missing 1\n/HIDDEN r8/hm\n", "hd PHASE missing2 1\n/HIDDEN hd\n", "/META r8 vm PHASE missing3 1\n",
+                     "/ALIAS ha gone\n/HIDDEN ha\n", "/ALIAS r8/hma gone3\n/HIDDEN r8/hma\n", "/META r8 okm CONST UINT8 1\n/HIDDEN r8/okm\n"]
+            rng.shuffle(parts)
+            txt += "".join(parts[:rng.randint(1, len(parts))])
         files["format"] = txt.encode()
         wd = os.path.join(C.scratch(), "chk%04d" % i)
         shutil.rmtree(wd, ignore_errors=True)
